@@ -761,6 +761,9 @@ def _decorate_inline(context, fn):
         def go(*args, **kw):
             return dec(context, *args, **kw)
 
+        # keep the def's name: a call with content hands its nested defs
+        # to the callee by name (caller.<name>)
+        go.__name__ = render_fn.__name__
         return go
 
     return decorate_render
